@@ -924,7 +924,8 @@ def get_response_template(
 
     response_name = get_name(obj)
     if response_name.endswith("Request"):
-        response_name = response_name[:-7] + "Response"
+        response_name = response_name[:-7]
+    response_name += "Response"
 
     class_template = {
         "name": response_name,
@@ -988,9 +989,9 @@ def generate_all_classes(spec: model.LSPModel, types: TypeData):
 
         struct = get_message_template(request, is_request=True)
         request_name = get_name(request)
-        response_name = request_name
-        if response_name.endswith("Request"):
-            response_name = response_name[:-7] + "Response"
+        if not request_name.endswith("Request"):
+            request_name += "Request"
+        response_name = request_name[:-7] + "Response"
         generate_class_from_struct(
             struct,
             spec,
